@@ -78,6 +78,8 @@ type Case struct {
 	Base    string       `json:"base,omitempty"`
 	Ops     []string     `json:"ops,omitempty"`
 	Note    string       `json:"note,omitempty"`
+	// Late: the case presumes the first n late-registered harness lints (replays register them too)
+	Late int `json:"late,omitempty"`
 }
 
 // Run is the observed behaviour plus the reference expectation.
@@ -210,6 +212,30 @@ func executeParsed(c Case, r *Run, reg lint.Registry, cfg lint.Configuration, wi
 		for _, l := range reg.OcspResponseLints().Lints() {
 			r.Names = append(r.Names, l.Name)
 			r.Metas[l.Name] = l.LintMetadata
+		}
+	}
+	// the lints of the matching kind, by a second road: the registry's name list and the per-kind lookup by name.
+	// What either road shows is expected in the result set (a list accessor gone stale must not be its own witness).
+	for _, n := range reg.Names() {
+		if _, ok := r.Metas[n]; ok {
+			continue
+		}
+		switch c.Kind {
+		case gen.Cert:
+			if l := reg.CertificateLints().ByName(n); l != nil {
+				r.Names = append(r.Names, n)
+				r.Metas[n] = l.LintMetadata
+			}
+		case gen.CRL:
+			if l := reg.RevocationListLints().ByName(n); l != nil {
+				r.Names = append(r.Names, n)
+				r.Metas[n] = l.LintMetadata
+			}
+		case gen.OCSP:
+			if l := reg.OcspResponseLints().ByName(n); l != nil {
+				r.Names = append(r.Names, n)
+				r.Metas[n] = l.LintMetadata
+			}
 		}
 	}
 	use := reg
